@@ -242,7 +242,8 @@ def operator_positions(ctx, rng):
             if kind == "exp":
                 args = [Node("/", vt(), Node("num", 4))]
             if kind == "Heaviside":
-                args = [Node("-", vt(), Node("num", 100))]                       # far from the kink
+                # the sign of the argument depends on the volume: A*(volume - 1.25), at least 1/8 away from the kink
+                args = [Node("*", Node("id", "A"), Node("-", Node("id", "volume"), Node("num", 1.25)))]
             if kind == "min":       # the other operands large / small enough for the one under test to decide the value
                 args = [vt() if i == pos else Node("num", 1000) for i in range(arity)]
             if kind == "max":
